@@ -65,10 +65,38 @@ def excluded_flat_plus_alternating(k, seed):
     return _df(rows), {'k': k, 'seed': seed, 'layout': f'excluded_flat_plus_alternating({lo},{d1},{d2})', 'ceilos': ['A', 'B'], 'rows': len(rows)}
 
 
+def three_decks_across_a_bin(k, seed):
+    """A < B < C with a separation-bin limit between B and C and B holding only a few hits: merging B and C moves the merged
+    base into the stricter bin, which must trigger a second merge with A"""
+    rng = random.Random(seed * 35 + k)
+    lim = rng.choice([10000, 3000])
+    a, b, c = (lim - 600, lim - 200, lim + 300) if lim == 10000 else (lim - 400, lim - 130, lim + 100)
+    nb = rng.choice([3, 4, 6])
+    rows = []
+    for i in range(100):
+        t = -1500 + 15 * i
+        rows.append(('A', t, a + rng.gauss(0, 1), 1))
+        rows.append(('A', t, c + rng.gauss(0, 1), 2))
+        if i < nb:
+            rows.append(('B', t + 1, b + rng.gauss(0, 1), 1))
+        else:
+            rows.append(('B', t + 1, np.nan, 0))
+    order = ['asc', 'desc', 'shuffled'][k % 3]
+    if order == 'desc':
+        rows.reverse()
+    elif order == 'shuffled':
+        rng.shuffle(rows)
+    return _df(rows), {'k': k, 'seed': seed, 'layout': f'three_decks_across_a_bin({a},{b}x{nb},{c},{order})', 'ceilos': ['A', 'B'], 'rows': len(rows), 'lim': lim}
+
+
 def check(k, seed):
     rng = random.Random(seed * 5 + k)
     kind = k % 6
-    if kind == 4:
+    if k % 12 == 7:
+        kind = 6
+    if kind == 6:
+        df, desc = three_decks_across_a_bin(k, seed)
+    elif kind == 4:
         df, desc = converging_sublayers(k, seed)
     elif kind == 5:
         df, desc = excluded_flat_plus_alternating(k, seed)
@@ -82,6 +110,9 @@ def check(k, seed):
     excl = len(desc['ceilos']) > 1 and (rng.random() < 0.4 or kind == 5)
     if excl:
         prms['EXCLUDE_FOR_BASE_HEIGHT_CALC'] = [desc['ceilos'][-1]]
+    if kind == 6:
+        prms = {'MIN_SEP_VALS': [250, 1000], 'MIN_SEP_LIMS': [10000]} if desc['lim'] == 10000 else {'MIN_SEP_VALS': [250, 600, 1000], 'MIN_SEP_LIMS': [3000, 10000]}
+        excl = False
     if kind in (4, 5):
         for key in ('MAX_HITS_OKTA0', 'MAX_HOLES_OKTA8', 'BASE_LVL_HEIGHT_PERC', 'MIN_SEP_VALS', 'MIN_SEP_LIMS'):
             prms.pop(key, None)
